@@ -3,7 +3,8 @@ import os, json, random
 from vlib import *
 
 HARNESS = {'pkg/kubernetes/zz_verif_c20_test.go': '/verif/harness/c20/c20_test.go'}
-LIM = (2 ** 63) // 1000   # K4: above this capacity 1000*memRequest overflows int64 (1000*cap >= 2^63)
+LIM = 2 ** 63 - 1          # every capacity an int64 holds (1000*memRequest is formed in 128 bits since the K4 repair)
+OLD_LIM = (2 ** 63) // 1000   # the bound below which the old int64 expression did not wrap
 
 
 def capacities(tier, rng):
@@ -12,7 +13,8 @@ def capacities(tier, rng):
         for d in (-1, 0, 1):
             caps.add(2 ** e + d)
     for k in (1048576, 1048577, 1049000, 2 * 10 ** 6, 10 ** 9, 10 ** 9 + 1, 10 ** 9 - 1, 16 * 2 ** 30, 16 * 2 ** 30 + 4096,
-              123456789012, 999999999999, 10 ** 12, 2 ** 40 + 12345, LIM, LIM - 1000, LIM // 2 + 7):
+              123456789012, 999999999999, 10 ** 12, 2 ** 40 + 12345, LIM, LIM - 1000, LIM // 2 + 7, OLD_LIM, OLD_LIM + 1, OLD_LIM - 1,
+              2 ** 63 // 999 - 1, 2 ** 62, 2 ** 62 + 1, 2 ** 63 - 4097):
         caps.add(k)
     try:
         for line in open('/proc/meminfo'):
@@ -31,9 +33,8 @@ def capacities(tier, rng):
         caps.add(rng.randint(1049, 10 ** 9) * 1000 + rng.choice((-1, 0, 1)))
     caps = {c for c in caps if 1048576 <= c <= LIM}
     if tier == 'quick':
-        caps = set(sorted(caps)[::2][:64]) | {LIM, 1048576}
-    huge = [2 ** 63 // 999 - 1, 2 ** 62]   # beyond the int64-safe bound (K4); both panic at once
-    # (capacities near 2^63 do not panic but spin for ~10^16 iterations: not run)
+        caps = set(sorted(caps)[::2][:64]) | {LIM, 1048576, OLD_LIM, OLD_LIM + 1, 2 ** 62, 2 ** 63 // 999 - 1}
+    huge = []     # (before the K4 repair: capacities beyond 2^63/1000 were run apart because they panicked)
     return sorted(caps), huge
 
 
@@ -115,6 +116,8 @@ def run(tier, seed, replay=None):
         # suppressed only by a real (non-zero) memory limit not above it; nothing outside [3, 999]
         probes = [(a, lim) for a in (-997, 0, 1, 2, 3, 4, 500, 998, 999, 1000, 1001) for lim in (0, 1, c // 2, c, c + 1)]
         for (a, lim), got in zip(probes, r.get('lookup') or []):
+            if lim > 2 ** 63 - 1:
+                continue      # c + 1 is not an int64 for the largest capacity: the harness passes a wrapped value
             if a < 3 or a > 999:
                 want = -1
             else:
@@ -168,9 +171,13 @@ def run(tier, seed, replay=None):
         f.write('Definition M := Eval vm_compute in match M0 with [] => None | (q,p,v)::_ => Some q end.\nPrint M.\n')
     files.append(('quota/period pairs (binary64 model)', p))
     # estimate tables
-    per = (len(capsr) + NSH - 1) // NSH
+    # capacities beyond 2^53 cost the model ~1000 search steps per table entry (binary64 start points are off by up
+    # to a few KiB there): the quick tier replays none of them in Coq, the thorough tier all; the Go-side clauses above
+    # judge every capacity in both tiers
+    coqcaps = [r for r in capsr if r['cap'] <= 2 ** 53 or tier != 'quick']
+    per = (len(coqcaps) + NSH - 1) // NSH
     for k in range(NSH):
-        ch = capsr[k * per:(k + 1) * per]
+        ch = coqcaps[k * per:(k + 1) * per]
         if not ch:
             continue
         p = os.path.join(chk.work, 'cases_caps_%02d.v' % k)
